@@ -6,7 +6,7 @@ harness/ref/drive402.py.  time.monotonic as seen by p402.py is a deterministic c
 time-outs of the code never depend on the wall clock (they are never reached on conformant runs)."""
 import logging, struct
 
-from vlib.obs import S, Err, guarded, gz, gbool, glist
+from vlib.obs import S, Err, Abort, guarded, gz, gbool, glist
 from ref import drive402 as R
 
 PROP = "C19"
@@ -20,7 +20,9 @@ RULE = ("cases = (statusword) decodes over all 65536 values by SDO (and a sample
         "all 8 x 8 pairs plus the pseudo targets, every schedule up to length 5 (thorough: 7) for the two states with a pending "
         "automatic transition; (mode, supported-modes mask, displayed mode, confirmation lag, transport) op_mode assignments; "
         "the PDO-routed decodes, assignments and op_mode cases also with the object mapped in two enabled TPDOs of which the drive "
-        "sends only one (each in turn); is_op_mode_supported and next_state_indirect calls; non-trivial = a decode of a non-zero statusword, an assignment with "
+        "sends only one (each in turn), with the controlword / mode RPDO carrying an event timer, with a drive that aborts the "
+        "upload of 0x6502 (first time / always, assignment made twice), and (implementation + oracle only) with a drive that "
+        "needs 250-350 virtual ms per commanded transition; is_op_mode_supported and next_state_indirect calls; non-trivial = a decode of a non-zero statusword, an assignment with "
         "start != target, an op_mode case with a non-zero mask; distinct by canonical JSON of the case")
 EXHAUSTIVE = {"quick": True, "thorough": True}
 EXPLANATION = ("all 65536 statuswords and all 8 x 8 (state, target) pairs are run through the implementation and the oracle in "
@@ -61,9 +63,9 @@ def _limited(read):
 
 class _Clock:
     """stands in for the `time` module inside p402.py"""
-    def __init__(self): self.t = 0.0
+    def __init__(self): self.t, self.step = 0.0, 0.0005
     def monotonic(self):
-        self.t += 0.0005
+        self.t += self.step
         return self.t
     def time(self): return self.monotonic()
     def sleep(self, s): self.t += s
@@ -128,12 +130,14 @@ class _HookDict(dict):
         return v
 
 
-def _make_node(rx=(), tx=(), tx_types=None):
+def _make_node(rx=(), tx=(), tx_types=None, rx_timer=None):
     """rx / tx: object indices carried by RPDO / TPDO (one PDO each; a tuple = several objects in that PDO);
-    tx_types: transmission type of each TPDO (default 255, event driven); everything else goes by SDO.
+    tx_types: transmission type of each TPDO (default 255, event driven); rx_timer = (transmission type, event
+    timer in ms) of the RPDOs (for an RPDO the event timer is the drive's deadline monitoring; the master stays
+    the producer and no periodic transmission is started); everything else goes by SDO.
     Returns (node, net, sdo_handlers) where sdo_handlers maps index -> (read, write)."""
     canopen, p402, od, Net = _lib()
-    p402.time.t = 0.0
+    p402.time.t, p402.time.step = 0.0, 0.0005
     node = p402.BaseNode402(NODE_ID, od)
     net = Net()
     net.add_node(node)
@@ -156,6 +160,8 @@ def _make_node(rx=(), tx=(), tx_types=None):
         m = node.rpdo[k + 1]
         m.clear(); m.add_variable(idx)
         m.cob_id = 0x200 + 0x100 * k + NODE_ID; m.enabled = True; m.trans_type = 255
+        if rx_timer:
+            m.trans_type, m.event_timer = rx_timer
     for k, idx in enumerate(tx):
         m = node.tpdo[k + 1]
         m.clear()
@@ -222,12 +228,19 @@ def run_decode(c):
 def run_set(c):
     cw_pdo, sw_pdo = c["cw"] == "pdo", c["sw"] == "pdo"
     multi = c.get("tpdo") if sw_pdo else None
+    rxt = tuple(c["rx_timer"]) if c.get("rx_timer") else None
     if multi is None:
-        node, net, sdo = _make_node(rx=(0x6040,) if cw_pdo else (), tx=(0x6041,) if sw_pdo else ())
+        node, net, sdo = _make_node(rx=(0x6040,) if cw_pdo else (), tx=(0x6041,) if sw_pdo else (), rx_timer=rxt)
     else:
         tx, types, sender = _multi_layout(0x6041, 1, multi)
-        node, net, sdo = _make_node(rx=(0x6040,) if cw_pdo else (), tx=tx, tx_types=types)
-    d = R.Drive402(c["start"], c["sched"], c["extra"])
+        node, net, sdo = _make_node(rx=(0x6040,) if cw_pdo else (), tx=tx, tx_types=types, rx_timer=rxt)
+    if c.get("lat"):
+        # drive needing lat[0] ms per commanded transition; the clock of p402.py advances lat[1] ms per look
+        clock = _lib()[1].time
+        clock.step = c["lat"][1] / 1000.0
+        d = R.LaggedDrive402(c["start"], c["sched"], c["extra"], lambda: clock.t, c["lat"][0] / 1000.0)
+    else:
+        d = R.Drive402(c["start"], c["sched"], c["extra"])
     read_status = _limited(d.read_status)
     sdo[0x6041] = (lambda: struct.pack("<H", read_status()), None)
     sdo[0x6040] = (None, lambda data: d.write_controlword(struct.unpack("<H", data)[0]))
@@ -249,14 +262,23 @@ def run_set(c):
 def run_opmode(c):
     pdo = c["via"] == "pdo"
     multi = c.get("tpdo") if pdo else None
+    rxt = tuple(c["rx_timer"]) if c.get("rx_timer") else None
     if multi is None:
-        node, net, sdo = _make_node(rx=(0x6060,) if pdo else (), tx=(0x6061,) if pdo else ())
+        node, net, sdo = _make_node(rx=(0x6060,) if pdo else (), tx=(0x6061,) if pdo else (), rx_timer=rxt)
     else:
         tx, types, sender = _multi_layout(0x6061, 0x0237, multi)
-        node, net, sdo = _make_node(rx=(0x6060,), tx=tx, tx_types=types)
+        node, net, sdo = _make_node(rx=(0x6060,), tx=tx, tx_types=types, rx_timer=rxt)
     m = R.ModeDrive(c["support"], c["display"], c["lag"])
     read_display = _limited(m.read_display)
-    sdo[0x6502] = (lambda: struct.pack("<L", m.read_support()), None)
+    ab = c.get("abort")           # {"when": "first" | "always", "code": abort code}: the drive aborts the upload of 0x6502
+    nsup = [0]
+
+    def read_support():
+        nsup[0] += 1
+        if ab and (ab["when"] == "always" or nsup[0] == 1):
+            raise _lib()[0].sdo.SdoAbortedError(ab["code"])
+        return struct.pack("<L", m.read_support())
+    sdo[0x6502] = (read_support, None)
     sdo[0x6061] = (lambda: struct.pack("<b", read_display()), None)
     sdo[0x6060] = (None, lambda data: m.write_mode(struct.unpack("<b", data)[0]))
     if pdo:
@@ -270,6 +292,9 @@ def run_opmode(c):
         node.op_mode = c["mode"]
         return None
     r = guarded(assign)
+    if ab:
+        r2 = guarded(assign)      # the same assignment once more, after the aborted one
+        return [r, r2, list(m.writes), m.reads]
     return [r, list(m.writes), m.reads]
 
 
@@ -299,7 +324,14 @@ def impl(c):
 
 # ------------------------------------------------------------------ oracle (CiA 402, via the reference drive only)
 def _lay(c):
-    return "" if c.get("tpdo") is None else f" [object mapped in TPDO1 and TPDO2, drive sends TPDO{c['tpdo'] + 1}]"
+    t = "" if c.get("tpdo") is None else f" [object mapped in TPDO1 and TPDO2, drive sends TPDO{c['tpdo'] + 1}]"
+    if c.get("rx_timer"):
+        t += f" [RPDO transmission type {c['rx_timer'][0]}, event timer {c['rx_timer'][1]} ms]"
+    if c.get("lat"):
+        t += f" [drive needs {c['lat'][0]} ms per commanded transition, clock advances {c['lat'][1]} ms per look]"
+    if c.get("abort"):
+        t += f" [drive aborts the {c['abort']['when']} upload of 0x6502 with {c['abort']['code']:#010x}]"
+    return t
 
 
 def oracle(c, o):
@@ -341,11 +373,22 @@ def oracle(c, o):
         if c["mode"] not in R.MODES:
             return None
         code, bit = R.MODES[c["mode"]]
-        res, writes, reads = o
         adv = bit is None or (c["support"] >> bit) & 1 == 1
         what = f"mode {c['mode']} support={c['support']:#x} display={c['display']} lag={c['lag']} via {c['via']}{_lay(c)}"
+        if c.get("abort"):
+            # first assignment: the supported-modes object could not be read; second: the drive advertises `support`
+            if c["abort"]["when"] != "first":
+                return None
+            r1, r2, writes, reads = o
+            if not adv:
+                if writes or not isinstance(r2, (Err, Abort)):
+                    return ("unadvertised_mode_accepted", f"{what}: results {r1!r}, {r2!r}, written {writes}")
+            elif not writes or any(w != code for w in writes):
+                return ("mode_code_wrong", f"{what}: written {writes}, CiA 402 code is {code}")
+            return None
+        res, writes, reads = o
         if not adv:
-            if writes or not isinstance(res, Err):
+            if writes or not isinstance(res, (Err, Abort)):
                 return ("unadvertised_mode_accepted", f"{what}: result {res!r}, written {writes}")
             return None
         if writes != [code]:
@@ -377,6 +420,9 @@ def coq_case(c):
     if k == "set":
         return (f"CSet {gbool(c['sw'] == 'pdo')} {gz(c['start'])} {gcoqstr(c['target'])} "
                 f"{glist([gbool(b) for b in c['sched']])} {gz(c['extra'])}")
+    if k == "opmode" and c.get("abort"):
+        return (f"COpModeAbort {gbool(c['abort']['when'] == 'always')} {gz(c['abort']['code'])} {gcoqstr(c['mode'])} "
+                f"{gz(c['support'])} {gz(c['display'])} {c['lag']}%nat")
     if k == "opmode":
         return f"COpMode {gcoqstr(c['mode'])} {gz(c['support'])} {gz(c['display'])} {c['lag']}%nat"
     if k == "supported": return f"CSupported {gcoqstr(c['mode'])} {gz(c['support'])}"
@@ -473,6 +519,23 @@ def gen_cases(rng, tier):
         cases += [dict(kind="decode", sw=sw, via="pdo", tpdo=sent, model=(tier != "search" and sw % 4 == 0))
                   for sw in list(range(0, 256)) + list(range(256, 65536, mstep))]
 
+    # controlword in an RPDO that has an event timer (deadline monitoring in the drive; the master still has to send it)
+    for rxt in ([255, 100], [254, 20]):
+        for start in range(8):
+            for tgt in R.NAMES:
+                for sw in (("pdo", "sdo") if tier != "quick" or (start + len(tgt)) % 2 else ("sdo",)):
+                    cases.append(dict(kind="set", cw="pdo", sw=sw, rx_timer=rxt, start=start, target=tgt,
+                                      sched=[0, 1] if start in (R.NR, R.FRA) else [], extra=rng.choice(EXTRAS)))
+    # a drive that needs time for every commanded transition, less than TIMEOUT_SWITCH_STATE_SINGLE (0.4 s) per step but
+    # more than TIMEOUT_SWITCH_STATE_FINAL (0.8 s) on a long path: every step makes progress, so the assignment succeeds.
+    # Implementation + oracle only (the model's drive reacts at once).
+    for lat in ([300, 20], [350, 20], [250, 10], [300, 50]) if tier != "quick" else ([300, 20], [350, 20], [300, 50]):
+        for start in range(8):
+            for tgt in R.NAMES:
+                cw, sw = transports[(start + len(tgt) + lat[0]) % 2] if tier == "quick" else transports[(start + lat[1]) % 4]
+                cases.append(dict(kind="set", cw=cw, sw=sw, lat=lat, start=start, target=tgt, model=False,
+                                  sched=[0, 0, 1] if start in (R.NR, R.FRA) else [], extra=rng.choice(EXTRAS)))
+
     # ---- operation modes
     masks = [0, 0x3FF, 0xFFFFFFFF, 0x10, 0xFFFFFFEF] + [1 << b for b in range(0, 11)] + [0x3FF ^ (1 << b) for b in range(0, 10)]
     masks += [rng.getrandbits(32) for _ in range({"quick": 10, "thorough": 100, "search": 40}[tier])]
@@ -494,6 +557,20 @@ def gen_cases(rng, tier):
             for support in masks[:5] + [rng.choice(masks[5:26])]:
                 cases.append(dict(kind="opmode", via="pdo", tpdo=sent, mode=mode, support=support,
                                   display=rng.choice(VALID_CODES), lag=rng.choice([0, 1, 2])))
+    # the drive aborts the upload of the (optional) supported-modes object 0x6502, the first time only or always;
+    # the assignment is made twice
+    for mode in R.MODES:
+        for support in masks[:3] + [m_ for m_ in masks[5:26] if rng.random() < (0.35 if tier == "quick" else 1.0)]:
+            for when in ("first", "always"):
+                cases.append(dict(kind="opmode", via=rng.choice(["sdo", "pdo"]), mode=mode, support=support,
+                                  abort=dict(when=when, code=rng.choice([0x06020000, 0x08000022, 0x06010000])),
+                                  display=rng.choice(VALID_CODES), lag=rng.choice([0, 1, 2])))
+    # mode of operation in an RPDO with an event timer
+    for rxt in ([255, 100], [254, 20]):
+        for mode in R.MODES:
+            for support in masks[:3] + [rng.choice(masks[5:26])]:
+                cases.append(dict(kind="opmode", via="pdo", rx_timer=rxt, mode=mode, support=support,
+                                  display=rng.choice(VALID_CODES), lag=rng.choice([0, 1])))
     for mode in R.MODES:
         for via in ("sdo", "pdo"):
             for display in VALID_CODES + [-1, 5]:
@@ -517,15 +594,17 @@ def shrink(c):
             yield dict(c, cw="sdo")
         if c["sw"] != "sdo":
             yield dict(c, sw="sdo")
-        if c.get("tpdo") is not None:
-            yield {k: v for k, v in c.items() if k != "tpdo"}
+        for key in ("tpdo", "rx_timer", "lat"):
+            if c.get(key) is not None:
+                yield {k: v for k, v in c.items() if k != key}
     elif c["kind"] == "opmode":
         if c["lag"]:
             yield dict(c, lag=0)
         if c["via"] != "sdo":
             yield dict(c, via="sdo")
-        if c.get("tpdo") is not None:
-            yield {k: v for k, v in c.items() if k != "tpdo"}
+        for key in ("tpdo", "rx_timer"):
+            if c.get(key) is not None:
+                yield {k: v for k, v in c.items() if k != key}
         for b in range(32):
             if c["support"] >> b & 1:
                 yield dict(c, support=c["support"] & ~(1 << b))
